@@ -49,6 +49,13 @@ pub fn structured(n: usize, r: &mut StdRng) -> Vec<Vec<usize>> {
         out.push(vec![p]);
         out.push((0..d).filter(|&m| m != p).collect());
     }
+    // invariant under rotating the variables (x0 -> x1 -> .. -> x0) without being totally symmetric: ring sums / ring
+    // ORs of a local pattern
+    if n >= 4 {
+        let pat = |m: usize, i: usize| -> bool { (m >> i) & 1 == 1 && (m >> ((i + 1) % n)) & 1 == 1 && (m >> ((i + 3) % n)) & 1 == 0 };
+        out.push(on_from_fn(n, |m| (0..n).filter(|&i| pat(m, i)).count() % 2 == 1));
+        out.push(on_from_fn(n, |m| (0..n).any(|i| pat(m, i))));
+    }
     // word-periodic: the same random 64-bit word in every block
     let w: u64 = r.gen();
     out.push(on_from_fn(n, |m| (w >> (m & 63)) & 1 == 1));
